@@ -84,6 +84,12 @@ def run(ctx):
     cfg = typer.cfg_of(nxt)
     selfn = nxt.selfname
     field = "%s.__iter" % selfn
+    # the field that holds the strategy generator: whatever attribute of self receives the result of self.__init()
+    for n_ in walk_own(nxt.node):
+        if isinstance(n_, ast.Assign) and isinstance(n_.value, ast.Call) and norm(n_.value.func) == "%s.__init" % selfn:
+            for t_ in n_.targets:
+                if isinstance(t_, ast.Attribute) and norm(t_.value) == selfn:
+                    field = norm(t_)
     aliases = {field}
     for n_ in walk_own(nxt.node):
         if isinstance(n_, ast.Assign) and len(n_.targets) == 1 and isinstance(n_.targets[0], ast.Name) and norm(n_.value) == field:
